@@ -19,11 +19,19 @@ def psd_checks(which):
     H, W = int(rng.integers(3, 13)), int(rng.integers(3, 13))
     dx = float(rng.uniform(0.05, 2.0))
     z = rng.standard_normal((H, W))
-    wname = [None, 'hann', 'welch', 'user'][int(rng.integers(0, 4))]
+    wname = [None, 'hann', 'welch', 'user', 'user-bool', 'user-uint8'][int(rng.integers(0, 6))]
     win = rng.random((H, W)) + 0.1 if wname == 'user' else wname
+    if wname == 'user-bool':
+        win = rng.random((H, W)) < 0.8
+        win[H // 2, W // 2] = True
+    elif wname == 'user-uint8':
+        win = (rng.random((H, W)) < 0.8).astype(np.uint8)
+        win[H // 2, W // 2] = 1
+    if rng.random() < 0.5:
+        z = z + float(rng.uniform(-20, 20))          # maps with a non-zero mean (power at zero frequency)
     if which == 'parseval':
         ux, uy, p = I.psd(z, dx, win)
-        w = I.make_window(z, dx, win)
+        w = np.asarray(I.make_window(z, dx, win), dtype=float)
         check('shape', p.shape == (H, W) and ux.shape == (H, W) and uy.shape == (H, W))
         lhs = p.sum() * (1 / (H * dx)) * (1 / (W * dx))
         rhs = ((z * w) ** 2).sum() / (w ** 2).sum()
@@ -60,6 +68,9 @@ def psd_checks(which):
             check('monotone-in-band', bool(f(a, c) + 1e-15 >= f(a, b) and f(a, c) + 1e-15 >= f(b, c)))
             g = float(I.bandlimited_rms(r, p, wllow=1 / c, wlhigh=1 / a))
             check('periods-equal-frequencies', bool(np.isclose(g, f(a, c), rtol=1e-9)))
+            # a band that starts at zero frequency contains the zero-frequency sample
+            check('band-from-zero-includes-dc', bool(np.isclose(f(0, c) ** 2, f(0, a) ** 2 + f(a, c) ** 2, rtol=1e-9, atol=1e-14)
+                                                     and f(0, a) ** 2 >= p[H // 2, W // 2] * abs(r[H // 2, W // 2] - r[H // 2 - 1, W // 2]) ** 2 * 0.24))
         else:
             full = float(I.bandlimited_rms(r, p, flow=0, fhigh=None))
             w = I.make_window(z, dx, 'hann')
